@@ -6,7 +6,7 @@ nodes are stubs exposing `.tokens` only. Everything the handlers raise is a refu
 Errors.Error (that wrapping is C07/C09's subject) - only a *different value* violates the property.
 Symbolic (S): operands (unbounded ints unless stated), literal texts. Case split (F): operator(s), cast name.
 """
-from vlib.prelude import ALPHA, CASE, cover, in_alpha, ok
+from vlib.prelude import ALPHA, CASE, cover, decode, in_alpha, natively, ok
 
 from rogw.tranp.implements.transpiler.evaluator import LiteralEvaluator
 
@@ -253,6 +253,40 @@ def explain_string_concat(lbody: str, rbody: str) -> str:
 	return f'{left} + {right}: evaluator gives the literal text {_EV._op_bin_each(None, [left, "+", right])!r}, CPython value {lbody + rbody!r}'  # type: ignore
 
 
+ESCAPED = ['"a"', '"a\\""', '"\\"a"', '"say \\"hi\\""', '"a\\\\"', '"\\\\\\""', "'it\\'s'", "'a\\''", "'\\''", '"it\'s"', "'say \"hi\"'", '"x\\n"', '"tab\\t."', '""', "''", '"!"', '"""a"b"""']
+
+
+def check_escaped_concat(i: int, j: int) -> bool:
+	left, right = ESCAPED[i], ESCAPED[j]
+	want = eval(left) + eval(right)  # noqa: S307  (literals of the fixed pool above)
+	try:
+		got = _EV._op_bin_each(None, [left, '+', right])  # type: ignore
+	except Exception:  # noqa: BLE001
+		cover('refused')
+		return True
+	cover('value')
+	if not isinstance(got, str):
+		return False
+	try:
+		back = eval(got)  # noqa: S307  the result is literal text: it must be a Python literal denoting the concatenation
+	except Exception:  # noqa: BLE001
+		return False
+	return isinstance(back, str) and back == want
+
+
+def escaped_concat(i: int, j: int) -> bool:
+	"""
+	pre: 0 <= i < len(ESCAPED) and 0 <= j < len(ESCAPED)
+	post: _
+	"""
+	return ok(natively(check_escaped_concat, decode(i, len(ESCAPED)), decode(j, len(ESCAPED))))
+
+
+def explain_escaped_concat(i: int, j: int) -> str:
+	left, right = ESCAPED[i], ESCAPED[j]
+	return f'{left} + {right}: evaluator gives the literal text {_EV._op_bin_each(None, [left, "+", right])!r}, CPython value {eval(left) + eval(right)!r}'  # type: ignore  # noqa: S307
+
+
 # ---------------------------------------------------------------- K5 casts
 CAST: str = CASE.get('cast', 'int')
 
@@ -317,6 +351,6 @@ EXPLAIN = {
 	'int_binop': explain_int_binop,
 	'int_chain': explain_int_chain,
 	'integer_literal': explain_integer_literal,
-	'string_concat': explain_string_concat,
+	'string_concat': explain_string_concat, 'escaped_concat': explain_escaped_concat,
 	'cast_of_string': explain_cast_of_string,
 }
